@@ -139,6 +139,9 @@ Definition denote_m (m : mout) (vals : list Z) : nat * option Z :=
   | MArmVar a i => (a, Some (nth i vals 0))
   | MArmUpcast a => (a, Some (nth 0 vals 0))
   | MIsZeroOf i => (if nth i vals 0 =? 0 then 1%nat else 0%nat, None)
+  | MIncDec inc sgn T =>
+      let r := if inc then num_inc sgn T (nth 0 vals 0) else num_dec T (nth 0 vals 0) in
+      (fst r, Some (snd r))
   end.
 
 Definition with_val (r : nat * Z) : nat * option Z := (fst r, Some (snd r)).
@@ -271,7 +274,39 @@ Proof.
         replace (tmax T <? x) with false by (symmetry; apply Z.ltb_ge; lia). reflexivity.
       * replace (x <? 0) with false by (symmetry; apply Z.ltb_ge; lia).
         replace (tmax T <? x) with false by (symmetry; apply Z.ltb_ge; lia). reflexivity.
-    + destruct (r =? 1); discriminate.
+    + destruct (Z.eqb_spec r 1) as [->|Hr1]; [|discriminate].
+      (* x +- 1: the corelib helper T_inc / T_dec *)
+      assert (Hm : m = MIncDec (is_add f) (is_signed_f f) T)
+        by (destruct T; try discriminate; injection Hfold as <-; reflexivity).
+      subst m. cbn [denote_m nth]. unfold with_val, num_inc, num_dec.
+      destruct Hf as [-> | [-> | [-> | ->]]]; cbn [is_add is_signed_f] in *;
+        unfold rt_ioverflowing, rt_uoverflowing.
+      * (* UAdd *)
+        destruct (Z.eqb_spec x (tmax T)) as [->|Hx]; cbn [fst snd].
+        -- replace (tmax T + 1 <? 0) with false by (symmetry; apply Z.ltb_ge; lia).
+           replace (tmax T <? tmax T + 1) with true by (symmetry; apply Z.ltb_lt; lia).
+           cbn [fst snd]. do 2 f_equal. lia.
+        -- replace (x + 1 <? 0) with false by (symmetry; apply Z.ltb_ge; lia).
+           replace (tmax T <? x + 1) with false by (symmetry; apply Z.ltb_ge; lia). reflexivity.
+      * (* USub *)
+        destruct (Z.eqb_spec x (tmin T)) as [->|Hx]; cbn [fst snd].
+        -- replace (tmin T - 1 <? 0) with true by (symmetry; apply Z.ltb_lt; lia).
+           cbn [fst snd]. do 2 f_equal. lia.
+        -- replace (x - 1 <? 0) with false by (symmetry; apply Z.ltb_ge; lia).
+           replace (tmax T <? x - 1) with false by (symmetry; apply Z.ltb_ge; lia). reflexivity.
+      * (* IAdd *)
+        destruct (Z.eqb_spec x (tmax T)) as [->|Hx]; cbn [fst snd].
+        -- replace (tmax T + 1 <? tmin T) with false by (symmetry; apply Z.ltb_ge; lia).
+           replace (tmax T <? tmax T + 1) with true by (symmetry; apply Z.ltb_lt; lia).
+           cbn [fst snd]. do 2 f_equal. lia.
+        -- replace (x + 1 <? tmin T) with false by (symmetry; apply Z.ltb_ge; lia).
+           replace (tmax T <? x + 1) with false by (symmetry; apply Z.ltb_ge; lia). reflexivity.
+      * (* ISub *)
+        destruct (Z.eqb_spec x (tmin T)) as [->|Hx]; cbn [fst snd].
+        -- replace (tmin T - 1 <? tmin T) with true by (symmetry; apply Z.ltb_lt; lia).
+           cbn [fst snd]. do 2 f_equal. lia.
+        -- replace (x - 1 <? tmin T) with false by (symmetry; apply Z.ltb_ge; lia).
+           replace (tmax T <? x - 1) with false by (symmetry; apply Z.ltb_ge; lia). reflexivity.
   - (* nothing known *)
     cbn in Hfold. discriminate.
 Qed.
@@ -469,4 +504,39 @@ Proof.
   repeat split; try reflexivity; try lia;
     rewrite ?Z.add_0_r, ?Z.add_0_l, ?Z.sub_0_r, ?Z.mul_1_r, ?Z.mul_1_l, ?Z.mul_0_r, ?Z.mul_0_l;
     try (apply Z.mod_small; lia); try (apply Z.mod_0_l; lia).
+Qed.
+
+(* ---------------- the helpers substituted for x + 1 / x - 1 ---------------- *)
+(* core::internal::num::T_inc / T_dec mean exactly overflowing add / sub of 1 -- arm and wrapped
+   value -- for every x of the type *)
+Theorem incdec_sound : forall T x, T <> Felt -> in_range T x ->
+  (signed T = false ->
+     num_inc false T x = rt_uoverflowing T (x + 1) /\ num_dec T x = rt_uoverflowing T (x - 1)) /\
+  (signed T = true ->
+     num_inc true T x = rt_ioverflowing T (x + 1) /\ num_dec T x = rt_ioverflowing T (x - 1)).
+Proof.
+  intros T x HT Rx. unfold in_range in Rx. pose proof (pow2_bits T HT) as Hb.
+  pose proof (tmax_ge_1 T) as H1. pose proof (tmin_le_0 T) as H0.
+  unfold num_inc, num_dec, rt_uoverflowing, rt_ioverflowing.
+  split; intros Hs.
+  - pose proof (unsigned_min T Hs) as Hm. rewrite Hm in *. split.
+    + destruct (Z.eqb_spec x (tmax T)) as [->|Hx].
+      * replace (tmax T + 1 <? 0) with false by (symmetry; apply Z.ltb_ge; lia).
+        replace (tmax T <? tmax T + 1) with true by (symmetry; apply Z.ltb_lt; lia). f_equal. lia.
+      * replace (x + 1 <? 0) with false by (symmetry; apply Z.ltb_ge; lia).
+        replace (tmax T <? x + 1) with false by (symmetry; apply Z.ltb_ge; lia). reflexivity.
+    + destruct (Z.eqb_spec x 0) as [->|Hx].
+      * replace (0 - 1 <? 0) with true by reflexivity. f_equal. lia.
+      * replace (x - 1 <? 0) with false by (symmetry; apply Z.ltb_ge; lia).
+        replace (tmax T <? x - 1) with false by (symmetry; apply Z.ltb_ge; lia). reflexivity.
+  - split.
+    + destruct (Z.eqb_spec x (tmax T)) as [->|Hx].
+      * replace (tmax T + 1 <? tmin T) with false by (symmetry; apply Z.ltb_ge; lia).
+        replace (tmax T <? tmax T + 1) with true by (symmetry; apply Z.ltb_lt; lia). f_equal. lia.
+      * replace (x + 1 <? tmin T) with false by (symmetry; apply Z.ltb_ge; lia).
+        replace (tmax T <? x + 1) with false by (symmetry; apply Z.ltb_ge; lia). reflexivity.
+    + destruct (Z.eqb_spec x (tmin T)) as [->|Hx].
+      * replace (tmin T - 1 <? tmin T) with true by (symmetry; apply Z.ltb_lt; lia). f_equal. lia.
+      * replace (x - 1 <? tmin T) with false by (symmetry; apply Z.ltb_ge; lia).
+        replace (tmax T <? x - 1) with false by (symmetry; apply Z.ltb_ge; lia). reflexivity.
 Qed.
